@@ -1975,7 +1975,22 @@ func (g *wgen) helper(i int) *wfunc {
 	g.push()
 	f.body = g.stmts(g.budget, g.o.maxDepth-1)
 	if f.ret != nil {
-		f.body = append(f.body, &wstmt{k: "return", e: g.expr(f.ret, 3)})
+		ret := &wstmt{k: "return", e: g.expr(f.ret, 3)}
+		if g.c.chance(0.12) {
+			// the function's last statement is a loop that is only left by `return` (valid: the loop never falls through):
+			// `var rlK = 0u; loop { if rlK >= N { return e; } rlK++; }`
+			ctr := g.fresh("rl")
+			ce := &wexpr{k: "var", ty: tU32, name: ctr}
+			lim := &wexpr{k: "lit", ty: tU32, bits: uint32(g.c.rng.Intn(3)), konst: true, small: true}
+			f.body = append(f.body,
+				&wstmt{k: "var", name: ctr, ty: tU32, e: &wexpr{k: "lit", ty: tU32, bits: 0, konst: true, small: true}},
+				&wstmt{k: "loop", body: []*wstmt{
+					{k: "if", e: &wexpr{k: "bin", ty: tBool, op: ">=", args: []*wexpr{ce, lim}}, body: []*wstmt{ret}},
+					{k: "incr", lhs: ce}}})
+			g.f("function-ends-in-loop-left-by-return")
+		} else {
+			f.body = append(f.body, ret)
+		}
 	}
 	g.pop()
 	g.pop()
